@@ -11,6 +11,7 @@ CLAIMS = {
  "C02": "Complete characterisation theorems of the three record parsers against a framing spec written from the property (all inputs, all offsets), axiom-free; the cap and the record dispatch table are regenerated from the source each run (the 'complete record never answers Incomplete' obligation is re-proved over that table); differential runs with a spec oracle tie model and implementation.",
  "C08": "tls_state_transition's two match tables are regenerated from the source and proved equal, cell by cell (25 states x 2 directions x all message kinds, all alert severities/codes via an abstraction lemma), to a specification built from the documented flows as paths plus the precedence rules; lifted to all finite message sequences by induction; every cell is also run on the real function (exhaustive over the abstract domain).",
  "C17": "The 18 newtype_enum! tables are regenerated from the source and proved equal (as finite maps) to a frozen IANA table; Display/Debug text is characterised for every integer by a general lemma on first-match lookup; SignatureScheme bit-splitting proved for all 16-bit values; key_bits proved for every named curve and every unregistered group; all of it also run exhaustively against the implementation.",
+ "C12": "The compiled registry is dumped completely (all 65536 ids, four lookup routes, iteration order, derived sizes) from the implementation built from the current tree and becomes the Coq model; it is proved equal to scripts/tls-ciphersuites.txt (regenerated) for every id, to contain a frozen copy of today's IANA table, to have agreeing routes, unique names with an exact from_name for every string, consistent sizes and name-token rules; each obligation is re-checked by the kernel on every run.",
 }
 def chk(pid):
     return {"property_id": pid, "quick_cmd": "./check %s --tier quick" % pid, "thorough_cmd": "./check %s --tier thorough" % pid,
